@@ -524,7 +524,7 @@ pub fn compile(sc: &K18) -> KChild {
     }
     // never coalesce: one segment (= one line) per read, so the processing time of every line is
     // the time of its RD entry in the seam log
-    KChild { outage: None, tz: sc.tz.clone(), file_ops: vec![], rust_log: sc.rust_log.clone(), gpsd, ev_delay_us: vec![], connects, events, proc_delay_us: vec![], coalesce: vec![false], step_budget: 40_000 + 4 * sc.bulk as u64 }
+    KChild { winsz_ops: vec![], outage: None, tz: sc.tz.clone(), file_ops: vec![], rust_log: sc.rust_log.clone(), gpsd, ev_delay_us: vec![], connects, events, proc_delay_us: vec![], coalesce: vec![false], step_budget: 40_000 + 4 * sc.bulk as u64 }
 }
 
 struct RefSnap {
